@@ -151,6 +151,20 @@ def setOpd (k0 k1 : Nat) (w : Str) (more : List (Nat × Str)) : Opd :=
 def fieldSetOpd (f : Str) (k0 k1 : Nat) (w : Str) (more : List (Nat × Str)) : Opd :=
   ⟨f ++ ':' :: setText k0 k1 w more, .leaf (.set (some f) (w :: more.map (·.2))), 1⟩
 
+/-- the body of a double-quoted phrase with `"` and `\` escaped by a backslash -/
+def escQuoted : Str → Str
+  | [] => []
+  | c :: r => if c == '"' || c == '\\' then '\\' :: c :: escQuoted r else c :: escQuoted r
+
+/-- a double-quoted phrase of any characters (printed with escapes), optionally with a suffix -/
+def phraseEscOpd (body : Str) (x : Sfx) : Opd :=
+  ⟨'"' :: (escQuoted body ++ '"' :: x.text), .leaf (.literal none body .double x.slopVal x.isPfx), 1⟩
+
+/-- `name:"phrase"` of any characters (printed with escapes), optionally with a suffix -/
+def fieldPhraseEscOpd (f body : Str) (x : Sfx) : Opd :=
+  ⟨f ++ ':' :: '"' :: (escQuoted body ++ '"' :: x.text),
+    .leaf (.literal (some f) body .double x.slopVal x.isPfx), 1⟩
+
 /-- `NOT x` (`k + 1` blanks after the keyword) as an operand -/
 def notOpd (k : Nat) (o : Opd) : Opd :=
   ⟨'N' :: 'O' :: 'T' :: ' ' :: (spaces k ++ o.text), o.leaf.unary .mustNot, o.cost + 1⟩
